@@ -373,6 +373,8 @@ def m_vector_take(d, w, mask):
 
 INTS = [0, 1, -1, 2, 3, 4, 7, 8, 9, 63, 64, 65, 255, 256, (1 << 31) - 1, 1 << 31, (1 << 32) - 1, 1 << 32, (1 << 32) + 1,
         1 << 61, (1 << 63) - 1, 1 << 63, U64MAX, 1 << 64, 1 << 70, -(1 << 31), -(1 << 31) - 1, -(1 << 32), -(1 << 63), -(1 << 63) - 1, -(1 << 64)]
+# around perfect squares (the natural boundaries of integer_sqrt): k*k - 1, k*k, k*k + 1 for k at the float/word edges
+SQUARES = [k * k + d for k in (3, 4, 1 << 16, (1 << 26) + 1, (1 << 26) + 2, 94906265, 94906266, 1 << 31, (1 << 32) - 1, 1 << 32, 3037000499, 3037000500, 1 << 40) for d in (-1, 0, 1)]
 SMALL = [0, 1, 2, 3, 4, 5, 7, 8, 9, 15, 16, 17]
 BINS = [b"", b"\x00", b"\xff", b"\x01\x02", b"\xff\x00", b"\x00\x00\x00\x00", bytes(range(1, 9)), bytes(range(1, 9)) + b"\xff", bytes(9),
         b"\xf0" + bytes(7) + b"\x05", b"\x80" + bytes(7), b"\xff" * 8, bytes(range(1, 17)), b"\xab\xab\xab\xab", b"\x01\x02\x01\x02\x01\x02", b"\x7f\xff\xff\xff\xff\xff\xff\xff" * 2,
@@ -400,7 +402,7 @@ BUILTINS = {
     "binary_hash64": (m_binary_hash64, ["b"]),
     "binary_append": (m_binary_append, ["b", "v", "k"]),
     "integer_abs": (m_integer_abs, ["i"]),
-    "integer_sqrt": (m_integer_sqrt, ["i"]),
+    "integer_sqrt": (m_integer_sqrt, ["q"]),
     "integer_add": (m_integer_add, ["i", "i"]),
     "integer_subtract": (m_integer_subtract, ["i", "i"]),
     "integer_multiply": (m_integer_multiply, ["i", "i"]),
@@ -437,6 +439,7 @@ KIND = {
     "k": [1, 2, 4, 7, 8, 0, 9, -1, 1 << 32, 1 << 64],
     "y": [0, 1, 2, 0xAB, 0xFF, 256, -1, 1 << 32, 1 << 64],
     "w": [4, 8, 0, 1, 2, 16, -4, 1 << 32, 1 << 64],
+    "q": INTS + SQUARES,
     "b": BINS,
     "m": [b"", b"\x00", b"\x01", b"\x01\x00", b"\x00\x01", b"\x01\x01", b"\x00\x02\x00\x01"],
 }
